@@ -171,6 +171,10 @@ pub fn cfg_for(ctx: &Ctx, subqueries: bool) -> GenCfg {
     c.arith_identity = !ctx.off("gen.arith_identity");
     c.const_join_cond = !ctx.off("gen.const_join_cond");
     c.having_other_agg = !ctx.off("gen.having_other_agg");
+    c.null_unsound_patterns = !ctx.off("gen.null_unsound_patterns");
+    c.correlated_scalar = !ctx.off("gen.correlated_scalar_subquery");
+    c.count_star_in_subquery = !ctx.off("gen.count_star_in_subquery");
+    c.scalar_subquery = !ctx.off("gen.scalar_subquery");
     c
 }
 
